@@ -495,6 +495,10 @@ class Sym(Stub):
 
     _settable = True
 
+    def _abs_cast(self, name):
+        # int(x) / float(x): recorded as a call of the builtin
+        return Sym(self._w, "call", Sym(self._w, "root", name), (self,), ())
+
     def _abs_call(self, *a, **k):
         return Sym(self._w, "call", self, tuple(a), tuple(sorted(k.items())))
 
